@@ -8,9 +8,6 @@ CONSTANTS
   FIXOHEXP = TRUE
   FIXOHSEC = TRUE
   XorAcc <- SymXor
-  MAXLEN = 3
-  ALLCH = FALSE
-  Depth = 2
+  MAXLEN = 2
   GEN = FALSE
-  FAMILY = "ptr"
-INVARIANTS WFEquiv ErrIsAtomic AgreeReverse Involution Position WFReverses AgreeExpiry AgreeSegments EndsSwap Emit
+INVARIANTS ModelErrIsAtomic AcceptedAgrees AcceptedFits Emit
